@@ -12,8 +12,20 @@ package main
 // arithmetic/shift/bit operations, comparisons, &&, || (short-circuit preserved), conversions between integer
 // types, string([]byte), errors.New(lit).  Anything else is an error (the tie is reported broken).
 //
-// Integer model: `int` -> Lean `Int` guarded by an interval analysis (every int-typed expression must provably
-// fit int64; `|`, `&`, `<<`, `>>` need non-negative operands and literal shift counts); uintN -> Lean UIntN.
+// Integer model: `int`, `int64`, `int32`, … -> Lean `Int`. An interval analysis (a fixpoint over all assignments of
+// the function, parameters at the full range of their type) bounds every signed expression; where the mathematical
+// result provably fits the expression's type the plain `Int` operation is emitted, where it may not, the result is
+// reduced with `wrapI <bits>` — Go defines signed overflow as two's-complement wrap-around, so this is the
+// language's meaning, not an approximation (`int` is taken as 64 bits: amd64/arm64). `|`, `&`, `<<`, `>>` on
+// signed values need provably non-negative operands and literal shift counts (refused otherwise); a division
+// whose divisor may be zero is refused. uintN -> Lean UIntN.
+//
+// Round 4 additions: fixed-size arrays `[N]byte` (parameters, `var d [N]byte`, `[N]byte{}`) and freshly allocated
+// `[]byte("…")` locals with index stores `d[i] = v` (checked; only for variables that provably have no alias);
+// tuple assignment with index targets; package-level byte tables that are nowhere written in the package, read as
+// constants; `for k, v := range <literal | local slice | table>` (structural recursion, no fuel);
+// `b.Write/WriteString/WriteByte` on a `*bytes.Buffer` parameter as an output list; `strings.LastIndexByte` /
+// `strings.IndexByte`; conversions between signed and unsigned integers.
 
 import (
 	"fmt"
@@ -58,7 +70,27 @@ type xlFunc struct {
 	declKind string         // "p", "r" or "l": what is being declared now
 	declNo   map[string]int
 	hoisted []string // loop conditions and bodies as definitions of their own (inner loops first)
+	rel     string   // file of the function, relative to the repo root
+	file    *ast.File
+	fuelNo  int // index into fuel: `for` loops only (range loops need none)
+	srcs    map[types.Object][]xlSrc
+	varRng  map[types.Object]ival
+	solving bool
+	parents map[ast.Node]ast.Node
+	storeOK map[types.Object]bool
+	globals map[types.Object]string // package-level table -> name of its Lean definition
+	gdefs   []string
 }
+
+// xlSrc is one way a variable gets a value (for the interval analysis)
+type xlSrc struct {
+	expr ast.Expr    // plain assignment from this expression; or
+	op   token.Token // x op= rhs (rhs == nil: 1); or
+	rhs  ast.Expr
+	c    *ival // a constant interval (zero value, range key, range value)
+}
+
+type ival struct{ lo, hi *big.Int } // lo == nil: bottom (no value yet)
 
 // xlateFile type-checks one file on its own (references to other files of the package stay unresolved and are
 // ignored; a function that needs them is outside the subset anyway).
@@ -99,10 +131,11 @@ func xlateFind(f *ast.File, recv, name string) *ast.FuncDecl {
 }
 
 // Translate returns the Lean text (a namespace <leanName> with St, body, run) of one function.
-func xlateFunc(x *X, fset *token.FileSet, info *types.Info, fd *ast.FuncDecl, leanName string, fuel []string, keep []string, rho string) (res string) {
+func xlateFunc(x *X, fset *token.FileSet, info *types.Info, fd *ast.FuncDecl, leanName string, fuel []string, keep []string, rho string, rel string, file *ast.File) (res string) {
 	outp := &res
 	t := &xlFunc{x: x, fset: fset, info: info, fd: fd, name: leanName, byObj: map[types.Object]string{}, byRecv: map[string]string{},
-		used: map[string]bool{}, fuel: fuel, keep: keep, stubRho: rho, assigns: map[types.Object][]ast.Expr{}, rngBusy: map[types.Object]bool{}, declKind: "p", declNo: map[string]int{}}
+		used: map[string]bool{}, fuel: fuel, keep: keep, stubRho: rho, assigns: map[types.Object][]ast.Expr{}, rngBusy: map[types.Object]bool{}, declKind: "p", declNo: map[string]int{},
+		rel: rel, file: file, srcs: map[types.Object][]xlSrc{}, varRng: map[types.Object]ival{}, storeOK: map[types.Object]bool{}, globals: map[types.Object]string{}}
 	var out string
 	defer func() {
 		if r := recover(); r != nil {
@@ -148,10 +181,12 @@ func xlateFunc(x *X, fset *token.FileSet, info *types.Info, fd *ast.FuncDecl, le
 		t.rho, t.rhoZ = "("+strings.Join(rts, " × ")+")", "("+strings.Join(rzs, ", ")+")"
 	}
 	t.declKind = "l"
+	t.buildParents(fd.Body)
 	t.collectAssigns(fd.Body)
+	t.solveRanges()
 	body := t.block(fd.Body.List, 1)
-	if t.loopNo != len(t.fuel) {
-		x.fail("xlate %s: %d loops but %d fuel expressions", leanName, t.loopNo, len(t.fuel))
+	if t.fuelNo != len(t.fuel) {
+		x.fail("xlate %s: %d `for` loops but %d fuel expressions", leanName, t.fuelNo, len(t.fuel))
 	}
 	var b strings.Builder
 	fmt.Fprintf(&b, "namespace %s\n\n", leanName)
@@ -163,6 +198,9 @@ func xlateFunc(x *X, fset *token.FileSet, info *types.Info, fd *ast.FuncDecl, le
 		fmt.Fprintf(&b, "  unit : Unit := ()\n")
 	}
 	fmt.Fprintf(&b, "\nabbrev Rho := %s\n\n", t.rho)
+	for _, g := range t.gdefs {
+		fmt.Fprintf(&b, "%s\n\n", g)
+	}
 	for _, h := range t.hoisted {
 		fmt.Fprintf(&b, "%s\n\n", h)
 	}
@@ -221,7 +259,7 @@ func (t *xlFunc) leanType(ty types.Type) (string, string) {
 	switch u := ty.Underlying().(type) {
 	case *types.Basic:
 		switch u.Kind() {
-		case types.Int, types.UntypedInt:
+		case types.Int, types.UntypedInt, types.Int64, types.Int32, types.Int16, types.Int8, types.UntypedRune:
 			return "Int", "0"
 		case types.Uint8:
 			return "UInt8", "0"
@@ -242,6 +280,16 @@ func (t *xlFunc) leanType(ty types.Type) (string, string) {
 			return "Bytes", "[]"
 		}
 		return "(List " + e + ")", "[]"
+	case *types.Array:
+		e, z := t.leanType(u.Elem())
+		if e == "UInt8" {
+			return "Bytes", fmt.Sprintf("(List.replicate %d (0 : UInt8))", u.Len())
+		}
+		return "(List " + e + ")", fmt.Sprintf("(List.replicate %d %s)", u.Len(), z)
+	case *types.Pointer:
+		if isBytesBuffer(ty) {
+			return "Bytes", "[]" // what has been written to the buffer (an output list)
+		}
 	case *types.Interface:
 		if ty.String() == "error" {
 			return "(Option String)", "none"
@@ -417,6 +465,9 @@ func (t *xlFunc) expr(e ast.Expr) xlExpr {
 		if f, ok := t.byObj[obj]; ok {
 			return xlExpr{nil, "s." + f}
 		}
+		if g, ok := t.global(n, obj); ok {
+			return xlExpr{nil, g}
+		}
 		t.bad(n, "identifier %s is not a local of the function", n.Name)
 	case *ast.SelectorExpr:
 		if f, ok := t.recvField(n); ok {
@@ -471,8 +522,7 @@ func (t *xlFunc) expr(e ast.Expr) xlExpr {
 			return xlExpr{a.pre, "!" + paren(a.term)}
 		case token.SUB:
 			if t.kind(n) == "Int" {
-				t.intRange(n)
-				return xlExpr{a.pre, "-" + paren(a.term)}
+				return xlExpr{a.pre, t.wrap(n, "(-"+paren(a.term)+")")}
 			}
 		}
 		t.bad(n, "unary %s outside the subset", n.Op)
@@ -480,6 +530,8 @@ func (t *xlFunc) expr(e ast.Expr) xlExpr {
 		return t.binary(n)
 	case *ast.CallExpr:
 		return t.call(n)
+	case *ast.CompositeLit:
+		return xlExpr{nil, t.compositeLit(n)}
 	}
 	t.bad(e, "expression %s (%T) outside the subset", t.x.src(e), e)
 	return xlExpr{}
@@ -546,16 +598,16 @@ func (t *xlFunc) binary(n *ast.BinaryExpr) xlExpr {
 		return xlExpr{pre, "decide (" + a + " " + op + " " + b + ")"}
 	}
 	if resk == "Int" {
-		t.intRange(n)
+		t.rawRng(n) // refuses what the subset excludes (possibly zero divisor, bit operation on a negative value)
 		switch n.Op {
 		case token.ADD:
-			return xlExpr{pre, a + " + " + b}
+			return xlExpr{pre, t.wrap(n, a+" + "+b)}
 		case token.SUB:
-			return xlExpr{pre, a + " - " + b}
+			return xlExpr{pre, t.wrap(n, a+" - "+b)}
 		case token.MUL:
-			return xlExpr{pre, a + " * " + b}
+			return xlExpr{pre, t.wrap(n, a+" * "+b)}
 		case token.QUO:
-			return xlExpr{pre, "Int.tdiv " + a + " " + b}
+			return xlExpr{pre, t.wrap(n, "Int.tdiv "+a+" "+b)}
 		case token.REM:
 			return xlExpr{pre, "Int.tmod " + a + " " + b}
 		case token.OR:
@@ -617,10 +669,15 @@ func (t *xlFunc) call(n *ast.CallExpr) xlExpr {
 		from := t.kind(n.Args[0])
 		a := t.expr(n.Args[0])
 		switch {
+		case to == "Int" && from == "Int":
+			return xlExpr{a.pre, t.wrap(n, a.term)} // between signed types: narrowing wraps
 		case to == from:
 			return a
 		case to == "Int" && strings.HasPrefix(from, "UInt"):
-			return xlExpr{a.pre, "Int.ofNat " + paren(a.term) + ".toNat"}
+			return xlExpr{a.pre, t.wrap(n, "Int.ofNat "+paren(a.term)+".toNat")}
+		case strings.HasPrefix(to, "UInt") && from == "Int":
+			// truncation to the low bits (two's complement), whatever the sign
+			return xlExpr{a.pre, "toU" + strings.TrimPrefix(to, "UInt") + " " + paren(a.term)}
 		case strings.HasPrefix(to, "UInt") && strings.HasPrefix(from, "UInt"):
 			// widening keeps the value, narrowing truncates: both are .toUIntN in Lean
 			return xlExpr{a.pre, paren(a.term) + ".to" + to}
@@ -639,6 +696,17 @@ func (t *xlFunc) call(n *ast.CallExpr) xlExpr {
 			return xlExpr{a.pre, "len " + paren(a.term)}
 		}
 	}
+	if pk, name := t.pkgCall(n); pk == "strings" && (name == "LastIndexByte" || name == "IndexByte") && len(n.Args) == 2 {
+		a, c := t.expr(n.Args[0]), t.expr(n.Args[1])
+		if t.kind(n.Args[0]) != "Bytes" || t.kind(n.Args[1]) != "UInt8" {
+			t.bad(n, "strings.%s on %s, %s", name, t.kind(n.Args[0]), t.kind(n.Args[1]))
+		}
+		f := "lastIndexByte"
+		if name == "IndexByte" {
+			f = "indexByte"
+		}
+		return xlExpr{append(append([]string{}, a.pre...), c.pre...), f + " " + paren(a.term) + " " + paren(c.term)}
+	}
 	if sel, ok := n.Fun.(*ast.SelectorExpr); ok {
 		if pk, ok := sel.X.(*ast.Ident); ok && pk.Name == "errors" && sel.Sel.Name == "New" && len(n.Args) == 1 {
 			if tv := t.info.Types[n.Args[0]]; tv.Value != nil && tv.Value.Kind() == constant.String {
@@ -651,37 +719,164 @@ func (t *xlFunc) call(n *ast.CallExpr) xlExpr {
 }
 
 // ---------------------------------------------------------------------------------------------------------
-// interval analysis for `int`
+// interval analysis for signed integers
 
 var (
 	minI64 = new(big.Int).Neg(new(big.Int).Lsh(big.NewInt(1), 63))
 	maxI64 = new(big.Int).Sub(new(big.Int).Lsh(big.NewInt(1), 63), big.NewInt(1))
 )
 
+func typeIval(bits int) ival {
+	if bits <= 0 {
+		bits = 64
+	}
+	return ival{new(big.Int).Neg(new(big.Int).Lsh(big.NewInt(1), uint(bits-1))), new(big.Int).Sub(new(big.Int).Lsh(big.NewInt(1), uint(bits-1)), big.NewInt(1))}
+}
+
+func constIval(a, b int64) ival { return ival{big.NewInt(a), big.NewInt(b)} }
+
+func (a ival) bottom() bool { return a.lo == nil }
+
+func (a ival) within(b ival) bool {
+	return a.bottom() || (a.lo.Cmp(b.lo) >= 0 && a.hi.Cmp(b.hi) <= 0)
+}
+
+func (a ival) union(b ival) ival {
+	if a.bottom() {
+		return b
+	}
+	if b.bottom() {
+		return a
+	}
+	r := ival{a.lo, a.hi}
+	if b.lo.Cmp(r.lo) < 0 {
+		r.lo = b.lo
+	}
+	if b.hi.Cmp(r.hi) > 0 {
+		r.hi = b.hi
+	}
+	return r
+}
+
+func (a ival) eq(b ival) bool {
+	if a.bottom() || b.bottom() {
+		return a.bottom() == b.bottom()
+	}
+	return a.lo.Cmp(b.lo) == 0 && a.hi.Cmp(b.hi) == 0
+}
+
+func (t *xlFunc) buildParents(body ast.Node) {
+	t.parents = map[ast.Node]ast.Node{}
+	var stack []ast.Node
+	ast.Inspect(body, func(n ast.Node) bool {
+		if n == nil {
+			stack = stack[:len(stack)-1]
+			return true
+		}
+		if len(stack) > 0 {
+			t.parents[n] = stack[len(stack)-1]
+		}
+		stack = append(stack, n)
+		return true
+	})
+}
+
+func (t *xlFunc) objOf(id *ast.Ident) types.Object {
+	if obj := t.info.Defs[id]; obj != nil {
+		return obj
+	}
+	return t.info.Uses[id]
+}
+
 func (t *xlFunc) collectAssigns(body ast.Node) {
+	zero := constIval(0, 0)
+	for _, r := range t.results {
+		t.srcs[r] = append(t.srcs[r], xlSrc{c: &zero})
+	}
 	ast.Inspect(body, func(n ast.Node) bool {
 		switch s := n.(type) {
 		case *ast.AssignStmt:
-			if len(s.Lhs) == len(s.Rhs) {
-				for i, l := range s.Lhs {
-					if id, ok := l.(*ast.Ident); ok {
-						obj := t.info.Defs[id]
-						if obj == nil {
-							obj = t.info.Uses[id]
-						}
-						if obj != nil {
-							if s.Tok == token.ASSIGN || s.Tok == token.DEFINE {
-								t.assigns[obj] = append(t.assigns[obj], s.Rhs[i])
+			for i, l := range s.Lhs {
+				id, ok := l.(*ast.Ident)
+				if !ok {
+					continue
+				}
+				obj := t.objOf(id)
+				if obj == nil {
+					continue
+				}
+				switch {
+				case len(s.Lhs) != len(s.Rhs):
+					full := typeIval(sbits(obj.Type()))
+					t.srcs[obj] = append(t.srcs[obj], xlSrc{c: &full})
+				case s.Tok == token.ASSIGN || s.Tok == token.DEFINE:
+					t.srcs[obj] = append(t.srcs[obj], xlSrc{expr: s.Rhs[i]})
+					t.assigns[obj] = append(t.assigns[obj], s.Rhs[i])
+				default:
+					t.srcs[obj] = append(t.srcs[obj], xlSrc{op: s.Tok, rhs: s.Rhs[i]})
+					t.assigns[obj] = append(t.assigns[obj], nil)
+				}
+			}
+		case *ast.IncDecStmt:
+			if id, ok := s.X.(*ast.Ident); ok {
+				if obj := t.objOf(id); obj != nil {
+					op := token.ADD_ASSIGN
+					if s.Tok == token.DEC {
+						op = token.SUB_ASSIGN
+					}
+					t.srcs[obj] = append(t.srcs[obj], xlSrc{op: op})
+					t.assigns[obj] = append(t.assigns[obj], nil)
+				}
+			}
+		case *ast.DeclStmt:
+			if gd, ok := s.Decl.(*ast.GenDecl); ok {
+				for _, sp := range gd.Specs {
+					if vs, ok := sp.(*ast.ValueSpec); ok {
+						for i, id := range vs.Names {
+							obj := t.info.Defs[id]
+							if obj == nil {
+								continue
+							}
+							if i < len(vs.Values) {
+								t.srcs[obj] = append(t.srcs[obj], xlSrc{expr: vs.Values[i]})
+								t.assigns[obj] = append(t.assigns[obj], vs.Values[i])
 							} else {
-								t.assigns[obj] = append(t.assigns[obj], nil) // op-assign: unknown
+								t.srcs[obj] = append(t.srcs[obj], xlSrc{c: &zero})
 							}
 						}
 					}
 				}
 			}
-		case *ast.IncDecStmt:
-			if id, ok := s.X.(*ast.Ident); ok {
-				if obj := t.info.Uses[id]; obj != nil {
+		case *ast.RangeStmt:
+			if id, ok := s.Key.(*ast.Ident); ok && id.Name != "_" {
+				if obj := t.objOf(id); obj != nil {
+					c := ival{big.NewInt(0), new(big.Int).Lsh(big.NewInt(1), 62)}
+					if cl, ok := s.X.(*ast.CompositeLit); ok && len(cl.Elts) > 0 {
+						c = constIval(0, int64(len(cl.Elts)-1))
+					}
+					t.srcs[obj] = append(t.srcs[obj], xlSrc{c: &c})
+					t.assigns[obj] = append(t.assigns[obj], nil)
+				}
+			}
+			if id, ok := s.Value.(*ast.Ident); ok && id.Name != "_" {
+				if obj := t.objOf(id); obj != nil {
+					c := typeIval(sbits(obj.Type()))
+					if cl, ok := s.X.(*ast.CompositeLit); ok && len(cl.Elts) > 0 {
+						var u ival
+						for _, e := range cl.Elts {
+							tv := t.info.Types[e]
+							if tv.Value == nil || tv.Value.Kind() != constant.Int {
+								u = ival{}
+								break
+							}
+							v, _ := new(big.Int).SetString(tv.Value.ExactString(), 10)
+							u = u.union(ival{v, v})
+						}
+						if !u.bottom() {
+							c = u
+						}
+					}
+					t.srcs[obj] = append(t.srcs[obj], xlSrc{c: &c})
 					t.assigns[obj] = append(t.assigns[obj], nil)
 				}
 			}
@@ -690,147 +885,297 @@ func (t *xlFunc) collectAssigns(body ast.Node) {
 	})
 }
 
-// intRange checks that the int-typed expression e fits int64 and returns its interval.
-func (t *xlFunc) intRange(e ast.Expr) (*big.Int, *big.Int) {
-	lo, hi := t.rng(e)
-	if lo.Cmp(minI64) < 0 || hi.Cmp(maxI64) > 0 {
-		t.bad(e, "int expression %s may leave int64 (%s..%s): not translated to unbounded Int", t.x.src(e), lo, hi)
+func (t *xlFunc) isParam(obj types.Object) bool {
+	for _, p := range t.fd.Type.Params.List {
+		for _, pn := range p.Names {
+			if t.info.Defs[pn] == obj {
+				return true
+			}
+		}
 	}
-	return lo, hi
+	return false
 }
 
-func (t *xlFunc) rng(e ast.Expr) (*big.Int, *big.Int) {
-	full := func() (*big.Int, *big.Int) { return new(big.Int).Set(minI64), new(big.Int).Set(maxI64) }
+// solveRanges: least fixpoint of "the interval of a variable is the union of the intervals of everything assigned
+// to it" (flow-insensitive; parameters start at the full range of their type). A variable whose interval keeps
+// growing is widened to the full range of its type.
+func (t *xlFunc) solveRanges() {
+	t.solving = true
+	defer func() { t.solving = false }()
+	var objs []types.Object
+	for obj := range t.srcs {
+		if sbits(obj.Type()) > 0 && !t.isParam(obj) {
+			objs = append(objs, obj)
+		}
+	}
+	sort.Slice(objs, func(i, j int) bool { return objs[i].Pos() < objs[j].Pos() })
+	round := func() bool {
+		changed := false
+		for _, obj := range objs {
+			full := typeIval(sbits(obj.Type()))
+			cur := t.varRng[obj]
+			nw := cur
+			for _, sc := range t.srcs[obj] {
+				var v ival
+				switch {
+				case sc.c != nil:
+					v = *sc.c
+				case sc.expr != nil:
+					v = t.rng(sc.expr)
+				default:
+					r := constIval(1, 1)
+					if sc.rhs != nil {
+						r = t.rng(sc.rhs)
+					}
+					ops := map[token.Token]token.Token{token.ADD_ASSIGN: token.ADD, token.SUB_ASSIGN: token.SUB, token.MUL_ASSIGN: token.MUL,
+						token.QUO_ASSIGN: token.QUO, token.REM_ASSIGN: token.REM}
+					if op, ok := ops[sc.op]; ok {
+						v = t.arith(op, cur, r)
+					} else if !cur.bottom() {
+						v = full
+					}
+					if !v.within(full) {
+						v = full
+					}
+				}
+				if !v.within(full) {
+					v = full
+				}
+				nw = nw.union(v)
+			}
+			if !nw.eq(cur) {
+				t.varRng[obj] = nw
+				changed = true
+			}
+		}
+		return changed
+	}
+	for i := 0; i < 48; i++ {
+		if !round() {
+			return
+		}
+	}
+	// widen what is still moving
+	before := map[types.Object]ival{}
+	for _, o := range objs {
+		before[o] = t.varRng[o]
+	}
+	round()
+	for _, o := range objs {
+		if !before[o].eq(t.varRng[o]) {
+			t.varRng[o] = typeIval(sbits(o.Type()))
+		}
+	}
+	for i := 0; i < 200 && round(); i++ {
+	}
+}
+
+// arith: interval of the mathematical result of `a op b` (bottom if an operand is bottom; the full int64 range
+// when nothing better is known — callers clamp to the type).
+func (t *xlFunc) arith(op token.Token, a, b ival) ival {
+	if a.bottom() || b.bottom() {
+		return ival{}
+	}
+	switch op {
+	case token.ADD:
+		return ival{new(big.Int).Add(a.lo, b.lo), new(big.Int).Add(a.hi, b.hi)}
+	case token.SUB:
+		return ival{new(big.Int).Sub(a.lo, b.hi), new(big.Int).Sub(a.hi, b.lo)}
+	case token.MUL:
+		var r ival
+		for _, x := range []*big.Int{a.lo, a.hi} {
+			for _, y := range []*big.Int{b.lo, b.hi} {
+				p := new(big.Int).Mul(x, y)
+				r = r.union(ival{p, p})
+			}
+		}
+		return r
+	case token.REM:
+		// |a rem b| < |b| and the sign follows a
+		m := new(big.Int).Abs(b.lo)
+		if h := new(big.Int).Abs(b.hi); h.Cmp(m) > 0 {
+			m = h
+		}
+		m = new(big.Int).Sub(m, big.NewInt(1))
+		lo, hi := new(big.Int).Neg(m), m
+		if a.lo.Sign() >= 0 {
+			lo = big.NewInt(0)
+		}
+		if a.hi.Sign() <= 0 {
+			hi = big.NewInt(0)
+		}
+		return ival{lo, hi}
+	case token.QUO:
+		// |a quo b| <= |a| (b != 0 is checked by the caller)
+		m := new(big.Int).Abs(a.lo)
+		if h := new(big.Int).Abs(a.hi); h.Cmp(m) > 0 {
+			m = h
+		}
+		lo, hi := new(big.Int).Neg(m), m
+		if b.lo.Sign() > 0 {
+			// truncated division by a divisor >= b.lo > 0 shrinks towards zero
+			lo, hi = new(big.Int).Quo(a.lo, b.lo), new(big.Int).Quo(a.hi, b.lo)
+			if lo.Sign() > 0 {
+				lo = big.NewInt(0)
+			}
+			if hi.Sign() < 0 {
+				hi = big.NewInt(0)
+			}
+		}
+		return ival{lo, hi}
+	}
+	return typeIval(64)
+}
+
+// rng: the interval of the Go value of e (always inside the range of e's type).
+func (t *xlFunc) rng(e ast.Expr) ival {
+	r := t.rawRng(e)
+	if bits := sbits(t.typeOf(e)); bits > 0 && !r.within(typeIval(bits)) {
+		return typeIval(bits)
+	}
+	return r
+}
+
+// needsWrap: may the mathematical value of the signed expression e lie outside its type?
+func (t *xlFunc) needsWrap(e ast.Expr) bool {
+	bits := sbits(t.typeOf(e))
+	return bits > 0 && !t.rawRng(e).within(typeIval(bits))
+}
+
+// wrapBits: the width e is reduced to when it needs wrapping
+func (t *xlFunc) wrap(e ast.Expr, term string) string {
+	if t.needsWrap(e) {
+		return fmt.Sprintf("wrapI %d %s", sbits(t.typeOf(e)), paren(term))
+	}
+	return term
+}
+
+// intRange: the interval of an index / bound / assigned expression (kept for its callers; overflow no longer
+// refuses the function, it is translated as wrap-around where it can happen).
+func (t *xlFunc) intRange(e ast.Expr) (*big.Int, *big.Int) {
+	r := t.rng(e)
+	if r.bottom() {
+		r = typeIval(64)
+	}
+	return r.lo, r.hi
+}
+
+// rawRng: interval of the mathematical result of e, computed from the (clamped) intervals of its operands.
+func (t *xlFunc) rawRng(e ast.Expr) ival {
+	ty := t.typeOf(e)
+	full := typeIval(sbits(ty))
 	if tv, ok := t.info.Types[e]; ok && tv.Value != nil && tv.Value.Kind() == constant.Int {
 		v, _ := new(big.Int).SetString(tv.Value.ExactString(), 10)
-		return v, new(big.Int).Set(v)
+		return ival{v, new(big.Int).Set(v)}
+	}
+	if ub := ubits(ty); ub > 0 {
+		return ival{big.NewInt(0), new(big.Int).Sub(new(big.Int).Lsh(big.NewInt(1), uint(ub)), big.NewInt(1))}
 	}
 	switch n := e.(type) {
 	case *ast.ParenExpr:
-		return t.rng(n.X)
+		return t.rawRng(n.X)
 	case *ast.Ident:
-		obj := t.info.Uses[n]
-		if obj == nil || t.rngBusy[obj] {
-			return full()
+		obj := t.objOf(n)
+		if obj == nil || t.isParam(obj) {
+			return full
 		}
-		as, ok := t.assigns[obj]
-		if !ok || len(as) == 0 {
-			return full() // a parameter
+		if r, ok := t.varRng[obj]; ok {
+			return r
 		}
-		for _, p := range t.fd.Type.Params.List {
-			for _, pn := range p.Names {
-				if t.info.Defs[pn] == obj {
-					return full()
-				}
+		if t.solving {
+			if _, ok := t.srcs[obj]; ok {
+				return ival{} // bottom: nothing assigned yet in this round
 			}
 		}
-		t.rngBusy[obj] = true
-		defer func() { t.rngBusy[obj] = false }()
-		var lo, hi *big.Int
-		for _, a := range as {
-			if a == nil {
-				return full()
-			}
-			l, h := t.rng(a)
-			if lo == nil || l.Cmp(lo) < 0 {
-				lo = l
-			}
-			if hi == nil || h.Cmp(hi) > 0 {
-				hi = h
-			}
-		}
-		return lo, hi
+		return full
 	case *ast.CallExpr:
 		if tv, ok := t.info.Types[n.Fun]; ok && tv.IsType() && len(n.Args) == 1 {
-			from, _ := t.leanType(t.info.Types[n.Args[0]].Type)
-			bits := map[string]uint{"UInt8": 8, "UInt16": 16, "UInt32": 32}[from]
-			if bits > 0 {
-				return big.NewInt(0), new(big.Int).Sub(new(big.Int).Lsh(big.NewInt(1), bits), big.NewInt(1))
-			}
-			if from == "Int" {
-				return t.rng(n.Args[0])
-			}
-			return full()
+			return t.rng(n.Args[0]) // conversion: the operand's value (the caller wraps if it does not fit)
 		}
 		if id, ok := n.Fun.(*ast.Ident); ok && id.Name == "len" {
-			return big.NewInt(0), new(big.Int).Lsh(big.NewInt(1), 62)
+			return ival{big.NewInt(0), new(big.Int).Lsh(big.NewInt(1), 62)}
 		}
-		return full()
+		if pk, name := t.pkgCall(n); pk == "strings" && (name == "LastIndexByte" || name == "IndexByte") {
+			return ival{big.NewInt(-1), new(big.Int).Lsh(big.NewInt(1), 62)}
+		}
+		return full
 	case *ast.UnaryExpr:
 		if n.Op == token.SUB {
-			l, h := t.rng(n.X)
-			return new(big.Int).Neg(h), new(big.Int).Neg(l)
+			a := t.rng(n.X)
+			if a.bottom() {
+				return a
+			}
+			return ival{new(big.Int).Neg(a.hi), new(big.Int).Neg(a.lo)}
+		}
+		if n.Op == token.ADD {
+			return t.rng(n.X)
 		}
 	case *ast.BinaryExpr:
-		l1, h1 := t.rng(n.X)
+		a := t.rng(n.X)
 		switch n.Op {
 		case token.SHL, token.SHR:
+			if a.bottom() {
+				return a
+			}
 			k := uint(t.shiftCount(n.Y, 63))
-			if l1.Sign() < 0 {
+			if a.lo.Sign() < 0 {
 				t.bad(n, "shift of a possibly negative int")
 			}
 			if n.Op == token.SHL {
-				return new(big.Int).Lsh(l1, k), new(big.Int).Lsh(h1, k)
-			}
-			return new(big.Int).Rsh(l1, k), new(big.Int).Rsh(h1, k)
-		}
-		l2, h2 := t.rng(n.Y)
-		switch n.Op {
-		case token.ADD:
-			return new(big.Int).Add(l1, l2), new(big.Int).Add(h1, h2)
-		case token.SUB:
-			return new(big.Int).Sub(l1, h2), new(big.Int).Sub(h1, l2)
-		case token.MUL:
-			var lo, hi *big.Int
-			for _, a := range []*big.Int{l1, h1} {
-				for _, b := range []*big.Int{l2, h2} {
-					p := new(big.Int).Mul(a, b)
-					if lo == nil || p.Cmp(lo) < 0 {
-						lo = p
-					}
-					if hi == nil || p.Cmp(hi) > 0 {
-						hi = p
-					}
+				r := ival{new(big.Int).Lsh(a.lo, k), new(big.Int).Lsh(a.hi, k)}
+				if !t.solving && !r.within(full) {
+					t.bad(n, "int expression %s may overflow in a shift (%s..%s): outside the subset", t.x.src(n), r.lo, r.hi)
 				}
+				return r
 			}
-			return lo, hi
+			return ival{new(big.Int).Rsh(a.lo, k), new(big.Int).Rsh(a.hi, k)}
+		}
+		b := t.rng(n.Y)
+		if a.bottom() || b.bottom() {
+			return ival{}
+		}
+		switch n.Op {
+		case token.ADD, token.SUB, token.MUL:
+			return t.arith(n.Op, a, b)
+		case token.QUO, token.REM:
+			if b.lo.Sign() <= 0 && b.hi.Sign() >= 0 {
+				t.bad(n, "division by a possibly zero value %s: outside the subset", t.x.src(n.Y))
+			}
+			return t.arith(n.Op, a, b)
 		case token.OR, token.AND:
-			if l1.Sign() < 0 || l2.Sign() < 0 {
+			if a.lo.Sign() < 0 || b.lo.Sign() < 0 {
 				t.bad(n, "bit operation on a possibly negative int")
 			}
 			if n.Op == token.AND {
-				if h1.Cmp(h2) < 0 {
-					return big.NewInt(0), h1
+				if a.hi.Cmp(b.hi) < 0 {
+					return ival{big.NewInt(0), a.hi}
 				}
-				return big.NewInt(0), h2
+				return ival{big.NewInt(0), b.hi}
 			}
-			m := h1
-			if h2.Cmp(m) > 0 {
-				m = h2
+			m := a.hi
+			if b.hi.Cmp(m) > 0 {
+				m = b.hi
 			}
-			return big.NewInt(0), new(big.Int).Sub(new(big.Int).Lsh(big.NewInt(1), uint(m.BitLen())), big.NewInt(1))
-		case token.REM:
-			if l2.Sign() > 0 {
-				b := new(big.Int).Sub(h2, big.NewInt(1))
-				if l1.Sign() >= 0 {
-					return big.NewInt(0), b
-				}
-				return new(big.Int).Neg(b), b
-			}
-		case token.QUO:
-			if l2.Sign() > 0 {
-				a := new(big.Int).Abs(l1)
-				if h := new(big.Int).Abs(h1); h.Cmp(a) > 0 {
-					a = h
-				}
-				if l1.Sign() >= 0 {
-					return big.NewInt(0), a
-				}
-				return new(big.Int).Neg(a), a
-			}
+			return ival{big.NewInt(0), new(big.Int).Sub(new(big.Int).Lsh(big.NewInt(1), uint(m.BitLen())), big.NewInt(1))}
 		}
 	}
-	return full()
+	return full
+}
+
+// pkgCall: ("strings", "LastIndexByte") for a call of a function of an imported package
+func (t *xlFunc) pkgCall(n *ast.CallExpr) (string, string) {
+	sel, ok := n.Fun.(*ast.SelectorExpr)
+	if !ok {
+		return "", ""
+	}
+	id, ok := sel.X.(*ast.Ident)
+	if !ok {
+		return "", ""
+	}
+	if pn, ok := t.info.Uses[id].(*types.PkgName); ok {
+		return pn.Imported().Path(), sel.Sel.Name
+	}
+	return "", ""
 }
 
 // ---------------------------------------------------------------------------------------------------------
@@ -930,9 +1275,10 @@ func (t *xlFunc) stmt(s ast.Stmt, d int) string {
 		k := t.loopNo
 		t.loopNo++
 		fuel := "0"
-		if k < len(t.fuel) {
-			fuel = t.fuel[k]
+		if t.fuelNo < len(t.fuel) {
+			fuel = t.fuel[t.fuelNo]
 		}
+		t.fuelNo++
 		if fuel == "auto" {
 			// a loop `for len(x) <op> … {}`: one more round than x has elements (that this suffices is proved, not
 			// assumed: running out of fuel is a panic value and the no-panic theorem covers it)
@@ -966,6 +1312,10 @@ func (t *xlFunc) stmt(s ast.Stmt, d int) string {
 			out = ind(d) + "seq (\n" + pre + ") (\n" + out + ")"
 		}
 		return out
+	case *ast.RangeStmt:
+		return t.rangeStmt(n, d)
+	case *ast.ExprStmt:
+		return t.exprStmt(n, d)
 	case *ast.SwitchStmt:
 		if n.Tag == nil {
 			t.bad(n, "switch without tag")
@@ -1117,13 +1467,39 @@ func (t *xlFunc) assign(n *ast.AssignStmt, d int) string {
 	if len(n.Lhs) != len(n.Rhs) {
 		t.bad(n, "assignment from a multi-value expression")
 	}
-	// evaluate every right-hand side first (Go's order), then store
+	// Go: the index operands on the left and every right-hand side are evaluated first, then the stores happen left
+	// to right. Expressions of the subset have no effects but panics, and a panic is a panic wherever it happens,
+	// so: right-hand sides, then index operands, then the (checked) stores.
 	var pre, terms, fields []string
+	type store struct {
+		field string
+		idx   ast.Expr
+		val   string
+	}
+	var stores []store
+	seen := map[string]bool{}
 	for i, r := range n.Rhs {
 		e := t.expr(r)
 		pre = append(pre, e.pre...)
-		f := t.lhsField(n.Lhs[i], n.Tok == token.DEFINE)
 		term := e.term
+		if ix, ok := n.Lhs[i].(*ast.IndexExpr); ok {
+			id, ok := ix.X.(*ast.Ident)
+			if !ok || t.kind(ix.X) != "Bytes" {
+				t.bad(ix, "index store into %s outside the subset", t.x.src(ix.X))
+			}
+			t.storable(id)
+			f := t.lhsField(id, false)
+			if seen[f] {
+				t.bad(n, "two targets of one assignment are the same variable")
+			}
+			seen[f] = true
+			if t.kind(r) != "UInt8" {
+				t.bad(r, "stored value of type %s", t.kind(r))
+			}
+			stores = append(stores, store{f, ix.Index, term})
+			continue
+		}
+		f := t.lhsField(n.Lhs[i], n.Tok == token.DEFINE)
 		if term == "NIL" {
 			for _, fl := range t.fields {
 				if fl.name == f {
@@ -1134,10 +1510,18 @@ func (t *xlFunc) assign(n *ast.AssignStmt, d int) string {
 		if f == "" {
 			continue
 		}
-		if lt := t.kind(n.Lhs[i]); lt == "Int" {
-			t.intRange(r)
+		if seen[f] {
+			t.bad(n, "two targets of one assignment are the same variable")
 		}
+		seen[f] = true
 		terms, fields = append(terms, term), append(fields, f)
+	}
+	for _, st := range stores {
+		ie := t.expr(st.idx)
+		pre = append(pre, ie.pre...)
+		v := t.tmp()
+		pre = append(pre, fmt.Sprintf("let %s ← upd s.%s %s %s", v, st.field, paren(t.asInt(st.idx, ie.term)), paren(st.val)))
+		terms, fields = append(terms, v), append(fields, st.field)
 	}
 	if len(fields) == 0 {
 		return fmt.Sprintf("%sassign %s (fun s _ => s)", ind(d), xlExpr{pre, "()"}.fn())
@@ -1145,10 +1529,7 @@ func (t *xlFunc) assign(n *ast.AssignStmt, d int) string {
 	if len(fields) == 1 {
 		return fmt.Sprintf("%sassign %s (fun s v => { s with %s := v })", ind(d), xlExpr{pre, terms[0]}.fn(), fields[0])
 	}
-	var upd []string
-	for i, f := range fields {
-		upd = append(upd, fmt.Sprintf("%s := v.%d", f, i+1))
-	}
+	upd := make([]string, len(fields))
 	// nested pairs: (a, b, c).1 = a, .2.1 = b, .2.2 = c
 	for i := range fields {
 		proj := ""
@@ -1161,6 +1542,108 @@ func (t *xlFunc) assign(n *ast.AssignStmt, d int) string {
 		upd[i] = fmt.Sprintf("%s := v%s", fields[i], proj)
 	}
 	return fmt.Sprintf("%sassign %s (fun s v => { s with %s })", ind(d), xlExpr{pre, "(" + strings.Join(terms, ", ") + ")"}.fn(), strings.Join(upd, ", "))
+}
+
+// exprStmt: `b.Write(x)`, `b.WriteString(x)`, `b.WriteByte(c)` on a *bytes.Buffer (results ignored): the buffer is
+// the list of bytes written to it.
+func (t *xlFunc) exprStmt(n *ast.ExprStmt, d int) string {
+	call, ok := n.X.(*ast.CallExpr)
+	if !ok {
+		t.bad(n, "expression statement outside the subset")
+	}
+	sel, ok := call.Fun.(*ast.SelectorExpr)
+	if !ok || !isBytesBuffer(t.typeOf(sel.X)) || len(call.Args) != 1 {
+		t.bad(n, "call statement %s outside the subset", t.x.src(call))
+	}
+	id, ok := sel.X.(*ast.Ident)
+	if !ok {
+		t.bad(n, "buffer %s is not a variable", t.x.src(sel.X))
+	}
+	f := t.lhsField(id, false)
+	a := t.expr(call.Args[0])
+	var term string
+	switch sel.Sel.Name {
+	case "Write", "WriteString":
+		if t.kind(call.Args[0]) != "Bytes" {
+			t.bad(n, "%s of %s", sel.Sel.Name, t.kind(call.Args[0]))
+		}
+		term = "s." + f + " ++ " + paren(a.term)
+	case "WriteByte":
+		if t.kind(call.Args[0]) != "UInt8" {
+			t.bad(n, "WriteByte of %s", t.kind(call.Args[0]))
+		}
+		term = "s." + f + " ++ [" + a.term + "]"
+	default:
+		t.bad(n, "buffer method %s outside the subset", sel.Sel.Name)
+	}
+	return fmt.Sprintf("%sassign %s (fun s v => { s with %s := v })", ind(d), xlExpr{a.pre, term}.fn(), f)
+}
+
+// rangeStmt: `for k, v := range xs { … }` over a literal of constants, a local slice/array or a package-level
+// table: structural recursion over the list (Go evaluates the range expression once). The body must not write the
+// variable ranged over.
+func (t *xlFunc) rangeStmt(n *ast.RangeStmt, d int) string {
+	if n.Tok != token.DEFINE && (n.Key != nil || n.Value != nil) {
+		t.bad(n, "range assigning to existing variables")
+	}
+	xt := t.typeOf(n.X)
+	if xt == nil {
+		t.bad(n, "range over an untyped expression")
+	}
+	var elem types.Type
+	switch u := xt.Underlying().(type) {
+	case *types.Slice:
+		elem = u.Elem()
+	case *types.Array:
+		elem = u.Elem()
+	default:
+		t.bad(n, "range over %s outside the subset", xt)
+	}
+	et, _ := t.leanType(elem)
+	xs := t.expr(n.X)
+	if len(xs.pre) > 0 {
+		t.bad(n.X, "range expression with effects")
+	}
+	if id, ok := n.X.(*ast.Ident); ok {
+		obj := t.objOf(id)
+		ast.Inspect(n.Body, func(m ast.Node) bool {
+			switch st := m.(type) {
+			case *ast.AssignStmt:
+				for _, l := range st.Lhs {
+					if r := rootIdent(l); r != nil && t.objOf(r) == obj {
+						t.bad(st, "the body of the range loop writes %s", id.Name)
+					}
+				}
+			case *ast.IncDecStmt:
+				if r := rootIdent(st.X); r != nil && t.objOf(r) == obj {
+					t.bad(st, "the body of the range loop writes %s", id.Name)
+				}
+			}
+			return true
+		})
+	}
+	var upd []string
+	if id, ok := n.Key.(*ast.Ident); ok && id.Name != "_" {
+		upd = append(upd, fmt.Sprintf("%s := Int.ofNat k", t.declare(t.info.Defs[id])))
+	}
+	if id, ok := n.Value.(*ast.Ident); ok && id.Name != "_" {
+		upd = append(upd, fmt.Sprintf("%s := x", t.declare(t.info.Defs[id])))
+	}
+	bind := "(fun _ _ s => s)"
+	if len(upd) > 0 {
+		bind = fmt.Sprintf("(fun k x s => { s with %s })", strings.Join(upd, ", "))
+		if len(upd) == 1 && strings.HasSuffix(upd[0], "Int.ofNat k") {
+			bind = fmt.Sprintf("(fun k _ s => { s with %s })", upd[0])
+		} else if len(upd) == 1 {
+			bind = fmt.Sprintf("(fun _ x s => { s with %s })", upd[0])
+		}
+	}
+	k := t.loopNo
+	t.loopNo++
+	body := t.block(n.Body.List, 1)
+	t.hoisted = append(t.hoisted, fmt.Sprintf("/-- loop %d of `%s` (source order): a `range` loop, the list ranged over -/\ndef loop%dList : St → List %s := fun s => %s\n\n/-- loop %d, body -/\ndef loop%dBody : Stmt Rho St :=\n%s",
+		k, t.goName(), k, et, xs.term, k, k, body))
+	return fmt.Sprintf("%sforEach loop%dList %s loop%dBody", ind(d), k, bind, k)
 }
 
 func (t *xlFunc) opAssign(lhs ast.Expr, tok token.Token, rhs ast.Expr, d int, at ast.Node) string {
@@ -1200,8 +1683,17 @@ func (t *xlFunc) opAssign(lhs ast.Expr, tok token.Token, rhs ast.Expr, d int, at
 		t.bad(at, "op-assignment %s on %s outside the subset", tok, k)
 	}
 	if k == "Int" {
-		// the variable depends on itself: no interval can be derived
-		t.bad(at, "self-dependent int variable %s: the interval analysis cannot bound it", t.x.src(lhs))
+		bits := sbits(t.typeOf(lhs))
+		rr := constIval(1, 1)
+		if rhs != nil {
+			rr = t.rng(rhs)
+		}
+		if (op == token.QUO || op == token.REM) && rr.lo.Sign() <= 0 && rr.hi.Sign() >= 0 {
+			t.bad(at, "division by a possibly zero value: outside the subset")
+		}
+		if raw := t.arith(op, t.rng(lhs), rr); !raw.within(typeIval(bits)) && op != token.REM {
+			term = fmt.Sprintf("wrapI %d %s", bits, paren(term))
+		}
 	}
 	return fmt.Sprintf("%sassign %s (fun s v => { s with %s := v })", ind(d), xlExpr{append(l.pre, r.pre...), term}.fn(), f)
 }
@@ -1251,22 +1743,399 @@ type xlSpec struct {
 }
 
 func xlateEmit(x *X, rel string, specs []xlSpec) {
-	fset, f, info := xlateLoad(x, rel)
-	if f == nil {
-		return
-	}
+	xlateEmitFiles(x, []xlFileSpec{{rel, specs}})
+}
+
+type xlFileSpec struct {
+	rel   string
+	specs []xlSpec
+}
+
+// xlateEmitFiles translates functions of several files into one generated module (one `xlateNotes` for all).
+func xlateEmitFiles(x *X, files []xlFileSpec) {
 	x.imports = append(x.imports, "Fabio.Xlate.Rt")
 	x.opens = append(x.opens, "Fabio.Xlate")
 	sort.Strings(x.imports)
-	for _, sp := range specs {
-		fd := xlateFind(f, sp.recv, sp.name)
-		if fd == nil {
-			x.fail("xlate: function %s.%s not found in %s", sp.recv, sp.name, rel)
+	for _, fs := range files {
+		fset, f, info := xlateLoad(x, fs.rel)
+		if f == nil {
 			continue
 		}
-		x.defRaw(xlateFunc(x, fset, info, fd, sp.lean, sp.fuel, sp.keep, sp.rho))
+		for _, sp := range fs.specs {
+			fd := xlateFind(f, sp.recv, sp.name)
+			if fd == nil {
+				x.fail("xlate: function %s.%s not found in %s", sp.recv, sp.name, fs.rel)
+				continue
+			}
+			x.defRaw(xlateFunc(x, fset, info, fd, sp.lean, sp.fuel, sp.keep, sp.rho, fs.rel, f))
+		}
 	}
 	var notes []string
 	notes = append(notes, x.xlateNotes...)
 	x.defStrList("xlateNotes", notes)
+}
+
+func isBytesBuffer(ty types.Type) bool {
+	p, ok := ty.(*types.Pointer)
+	if !ok {
+		return false
+	}
+	n, ok := p.Elem().(*types.Named)
+	return ok && n.Obj().Name() == "Buffer" && n.Obj().Pkg() != nil && n.Obj().Pkg().Path() == "bytes"
+}
+
+// sbits: width of a signed integer type (int = 64), 0 otherwise. ubits: width of an unsigned one.
+func sbits(ty types.Type) int {
+	if ty == nil {
+		return 0
+	}
+	if b, ok := ty.Underlying().(*types.Basic); ok {
+		switch b.Kind() {
+		case types.Int, types.Int64, types.UntypedInt, types.UntypedRune:
+			return 64
+		case types.Int32:
+			return 32
+		case types.Int16:
+			return 16
+		case types.Int8:
+			return 8
+		}
+	}
+	return 0
+}
+
+func ubits(ty types.Type) int {
+	if ty == nil {
+		return 0
+	}
+	if b, ok := ty.Underlying().(*types.Basic); ok {
+		switch b.Kind() {
+		case types.Uint8:
+			return 8
+		case types.Uint16:
+			return 16
+		case types.Uint32:
+			return 32
+		case types.Uint64:
+			return 64
+		}
+	}
+	return 0
+}
+
+func (t *xlFunc) typeOf(e ast.Expr) types.Type {
+	if id, ok := e.(*ast.Ident); ok {
+		if obj := t.info.Defs[id]; obj != nil {
+			return obj.Type()
+		}
+	}
+	if tv, ok := t.info.Types[e]; ok {
+		return tv.Type
+	}
+	return nil
+}
+
+// ---------------------------------------------------------------------------------------------------------
+// package-level tables, composite literals, alias discipline for index stores
+
+func rootIdent(e ast.Expr) *ast.Ident {
+	for {
+		switch n := e.(type) {
+		case *ast.Ident:
+			return n
+		case *ast.ParenExpr:
+			e = n.X
+		case *ast.IndexExpr:
+			e = n.X
+		case *ast.SliceExpr:
+			e = n.X
+		case *ast.StarExpr:
+			e = n.X
+		default:
+			return nil
+		}
+	}
+}
+
+// global: a package-level `var` of a byte-table type, initialised by a literal in this file and nowhere written,
+// sliced, passed on or address-taken in the package (every use is `tbl[i]` on the reading side, `len(tbl)` or
+// `range tbl`), is read as a constant.
+func (t *xlFunc) global(id *ast.Ident, obj types.Object) (string, bool) {
+	v, ok := obj.(*types.Var)
+	if !ok || v.Pkg() == nil || v.Parent() != v.Pkg().Scope() {
+		return "", false
+	}
+	if g, ok := t.globals[obj]; ok {
+		return g, true
+	}
+	lt, _ := t.leanType(v.Type())
+	if lt != "Bytes" {
+		t.bad(id, "package-level %s of type %s is outside the subset", id.Name, v.Type())
+	}
+	var init ast.Expr
+	for _, d := range t.file.Decls {
+		gd, ok := d.(*ast.GenDecl)
+		if !ok || gd.Tok != token.VAR {
+			continue
+		}
+		for _, sp := range gd.Specs {
+			vs := sp.(*ast.ValueSpec)
+			for i, nm := range vs.Names {
+				if t.info.Defs[nm] == obj && i < len(vs.Values) && len(vs.Names) == len(vs.Values) {
+					init = vs.Values[i]
+				}
+			}
+		}
+	}
+	if init == nil {
+		t.bad(id, "package-level %s has no initialiser in %s", id.Name, t.rel)
+	}
+	var term string
+	switch e := init.(type) {
+	case *ast.CallExpr: // []byte("…")
+		if tv, ok := t.info.Types[e.Fun]; ok && tv.IsType() && len(e.Args) == 1 {
+			if av := t.info.Types[e.Args[0]]; av.Value != nil && av.Value.Kind() == constant.String {
+				term = bytesLit(constant.StringVal(av.Value))
+			}
+		}
+	case *ast.CompositeLit:
+		term = t.compositeLit(e)
+	}
+	if term == "" {
+		t.bad(id, "initialiser of package-level %s is not a byte-table literal", id.Name)
+	}
+	// read-only in the whole package (syntactic, by name: a local of the same name elsewhere refuses as well)
+	for _, f := range t.x.files(filepath.Dir(t.rel)) {
+		var stack []ast.Node
+		ast.Inspect(f, func(n ast.Node) bool {
+			if n == nil {
+				stack = stack[:len(stack)-1]
+				return true
+			}
+			stack = append(stack, n)
+			u, ok := n.(*ast.Ident)
+			if !ok || u.Name != id.Name || len(stack) < 2 {
+				return true
+			}
+			par := stack[len(stack)-2]
+			var grand ast.Node
+			if len(stack) >= 3 {
+				grand = stack[len(stack)-3]
+			}
+			okUse := false
+			switch p := par.(type) {
+			case *ast.ValueSpec: // its declaration
+				for _, nm := range p.Names {
+					if nm == u {
+						okUse = true
+					}
+				}
+			case *ast.IndexExpr:
+				if p.X == u {
+					okUse = true
+					switch g := grand.(type) {
+					case *ast.AssignStmt:
+						for _, l := range g.Lhs {
+							if l == ast.Expr(p) {
+								okUse = false
+							}
+						}
+					case *ast.IncDecStmt:
+						okUse = false
+					case *ast.UnaryExpr:
+						if g.Op == token.AND {
+							okUse = false
+						}
+					}
+				} else {
+					okUse = p.Index != ast.Expr(u) // an index named like the table: some other variable
+				}
+			case *ast.CallExpr:
+				if f, ok := p.Fun.(*ast.Ident); ok && f.Name == "len" {
+					okUse = true
+				}
+			case *ast.RangeStmt:
+				okUse = p.X == ast.Expr(u)
+			case *ast.SelectorExpr:
+				okUse = p.Sel == u // a field or method of that name
+			case *ast.KeyValueExpr:
+				okUse = p.Key == ast.Expr(u)
+			case *ast.Field:
+				okUse = true
+			}
+			if !okUse {
+				t.bad(id, "package-level %s is used other than by reading an element (%s): not read as a constant", id.Name, t.x.fset.Position(u.Pos()))
+			}
+			return true
+		})
+	}
+	g := fmt.Sprintf("g%d", len(t.globals))
+	t.globals[obj] = g
+	t.gdefs = append(t.gdefs, fmt.Sprintf("/-- package-level `%s` (nowhere written in the package: read as a constant) -/\ndef %s : Bytes := %s", id.Name, g, term))
+	return g, true
+}
+
+// compositeLit: `[N]byte{}` (zero value) or a slice/array literal of constants without keys
+func (t *xlFunc) compositeLit(n *ast.CompositeLit) string {
+	ty := t.typeOf(n)
+	if ty == nil {
+		t.bad(n, "composite literal without type")
+	}
+	lt, z := t.leanType(ty)
+	var elem types.Type
+	length := int64(-1)
+	switch u := ty.Underlying().(type) {
+	case *types.Array:
+		elem, length = u.Elem(), u.Len()
+	case *types.Slice:
+		elem = u.Elem()
+	default:
+		t.bad(n, "composite literal of type %s outside the subset", ty)
+	}
+	if len(n.Elts) == 0 {
+		if length >= 0 {
+			return z
+		}
+		return "([] : " + lt + ")"
+	}
+	if length >= 0 && int64(len(n.Elts)) != length {
+		t.bad(n, "array literal with %d of %d elements", len(n.Elts), length)
+	}
+	et, _ := t.leanType(elem)
+	var parts []string
+	for _, e := range n.Elts {
+		tv := t.info.Types[e]
+		if _, isKV := e.(*ast.KeyValueExpr); isKV || tv.Value == nil || tv.Value.Kind() != constant.Int {
+			t.bad(e, "literal element %s is not an integer constant", t.x.src(e))
+		}
+		parts = append(parts, tv.Value.ExactString())
+	}
+	return "([" + strings.Join(parts, ", ") + "] : List " + et + ")"
+}
+
+// storable: may `v[i] = x` be translated as a functional update of the state field of v? Only if no other name can
+// reach the same memory: v is a fixed-size array (a value) that is never address-taken and only sliced where the
+// slice is consumed at once (string(v[a:b]), b.Write(v[a:])), or a slice that is only ever assigned fresh
+// allocations ([]byte("…"), a literal) and only used as v[i], len(v), string(v).
+func (t *xlFunc) storable(id *ast.Ident) {
+	obj := t.objOf(id)
+	if obj == nil {
+		t.bad(id, "index store into %s: unresolved", id.Name)
+	}
+	if t.storeOK[obj] {
+		return
+	}
+	if _, ok := t.byObj[obj]; !ok {
+		t.bad(id, "index store into %s which is not a local", id.Name)
+	}
+	_, isArray := obj.Type().Underlying().(*types.Array)
+	_, isSlice := obj.Type().Underlying().(*types.Slice)
+	if !isArray && !isSlice {
+		t.bad(id, "index store into %s of type %s", id.Name, obj.Type())
+	}
+	if isSlice {
+		if t.isParam(obj) {
+			t.bad(id, "index store into the slice parameter %s (the caller's memory)", id.Name)
+		}
+		for _, a := range t.assigns[obj] {
+			fresh := false
+			switch e := a.(type) {
+			case *ast.CallExpr:
+				if tv, ok := t.info.Types[e.Fun]; ok && tv.IsType() && len(e.Args) == 1 {
+					if at := t.typeOf(e.Args[0]); at != nil {
+						if b, ok := at.Underlying().(*types.Basic); ok && b.Info()&types.IsString != 0 {
+							fresh = true // []byte(string) allocates
+						}
+					}
+				}
+			case *ast.CompositeLit:
+				fresh = true
+			}
+			if !fresh {
+				t.bad(id, "index store into %s which is assigned something that may be shared", id.Name)
+			}
+		}
+	}
+	consumed := func(n ast.Node) bool { // is the slice expression n consumed at once?
+		p := t.parents[n]
+		for {
+			if pe, ok := p.(*ast.ParenExpr); ok {
+				p = t.parents[pe]
+				continue
+			}
+			break
+		}
+		call, ok := p.(*ast.CallExpr)
+		if !ok {
+			return false
+		}
+		if tv, ok := t.info.Types[call.Fun]; ok && tv.IsType() {
+			if b, ok := tv.Type.Underlying().(*types.Basic); ok && b.Info()&types.IsString != 0 {
+				return true // string(v[a:b]) copies
+			}
+			return false
+		}
+		if sel, ok := call.Fun.(*ast.SelectorExpr); ok {
+			if isBytesBuffer(t.typeOf(sel.X)) && (sel.Sel.Name == "Write" || sel.Sel.Name == "WriteString") {
+				return true // copies into the buffer
+			}
+		}
+		if f, ok := call.Fun.(*ast.Ident); ok && f.Name == "len" {
+			return true
+		}
+		return false
+	}
+	ast.Inspect(t.fd.Body, func(n ast.Node) bool {
+		u, ok := n.(*ast.Ident)
+		if !ok || t.objOf(u) != obj {
+			return true
+		}
+		bad := ""
+		switch p := t.parents[u].(type) {
+		case *ast.IndexExpr:
+			if p.X != ast.Expr(u) {
+				bad = "used as an index"
+			} else if g, ok := t.parents[p].(*ast.UnaryExpr); ok && g.Op == token.AND {
+				bad = "address of an element taken"
+			}
+		case *ast.SliceExpr:
+			if isSlice || !consumed(p) {
+				bad = "sliced into a value that lives on"
+			}
+		case *ast.CallExpr:
+			okc := false
+			if f, ok := p.Fun.(*ast.Ident); ok && f.Name == "len" {
+				okc = true
+			}
+			if tv, ok := t.info.Types[p.Fun]; ok && tv.IsType() {
+				if b, ok := tv.Type.Underlying().(*types.Basic); ok && b.Info()&types.IsString != 0 {
+					okc = true
+				}
+			}
+			if !okc {
+				bad = "passed to a call"
+			}
+		case *ast.AssignStmt:
+			for _, r := range p.Rhs {
+				if r == ast.Expr(u) && isSlice {
+					bad = "assigned to another variable"
+				}
+			}
+		case *ast.ValueSpec, *ast.RangeStmt:
+			if rs, ok := p.(*ast.RangeStmt); ok && rs.X == ast.Expr(u) && isSlice {
+				bad = "ranged over"
+			}
+		case *ast.UnaryExpr:
+			if p.Op == token.AND {
+				bad = "address taken"
+			}
+		default:
+			bad = fmt.Sprintf("used in %T", p)
+		}
+		if bad != "" {
+			t.bad(u, "index store into %s which is %s: it may have an alias", id.Name, bad)
+		}
+		return true
+	})
+	t.storeOK[obj] = true
 }
